@@ -556,7 +556,7 @@ func Solve(name string, hyps []*Term, goal *Term, timeoutS, seed int, thorough b
 	}
 	// stage 1: quantifier-free by instantiation
 	ti := time.Now()
-	qf, _ := instantiate(asserts, 5, 24, 400)
+	qf, _ := instantiate(asserts, 6, 24, 400)
 	qfScript := Script(qf, "", true)
 	statMu.Lock()
 	statInst += time.Since(ti).Seconds()
